@@ -796,6 +796,12 @@ class URL:
                 _add('/')
                 # TODO: i think this is here because relative paths
                 # with absolute authorities = undefined
+            if not scheme and not authority:
+                # RFC 3986 4.2: the first segment of a relative-path
+                # reference cannot contain a colon (it would be read
+                # back as a scheme)
+                first, slash, rest = path.partition('/')
+                path = first.replace(':', '%3A') + slash + rest
             _add(path)
         if query_string:
             _add('?')
